@@ -172,9 +172,58 @@ def make(maxinst, args_pool=ARGS, names=NAMES, opts_pool=OPTS, two_files_bit=Fal
     return fn
 
 
+def scale_fn(g):
+    """Hundreds of instances; group and instance names of 125+ characters."""
+    shape = ("instances-257", "instances-300-chained", "long-names-125+125", "long-names-60+200")[g.choose("shape", 4)]
+    if shape.startswith("instances"):
+        n = int(shape.split("-")[1])
+        insts = [{"name": "r%d" % i, "args": None, "options": None, "par": False} for i in range(n)]
+        chain = shape.endswith("chained")
+        gname = "g"
+    else:
+        a, b = shape.split("-")[2].split("+")
+        gname = "g" * int(a)
+        insts = [{"name": "i" * int(b), "args": [1], "options": None, "par": False}]
+        chain = False
+    gtext = group_form(insts, chain, [":x"], "").replace("name='g'", "name=%r" % gname)
+    etext = reference_expansion(insts, chain, [":x"], "").replace("combine(name='g'", "combine(name=%r" % gname)
+    out = []
+    for text in (gtext, etext):
+        import conductor.cli.run as cli_run
+        proj = hrun.Project()
+        try:
+            proj.write("COND", COMMON + text)
+            kern = fakeos.Kernel(graphs.SymSched(g, all_ok=True, on_spawn=graphs.output_writer), clock=fakeos.Clock(lambda i: 2000.0))
+            chk = hrun.invoke(cli_run.main, hrun.run_ns(task_identifier="//:" + gname, check=True), str(proj.root),
+                              fakeos.Kernel(fakeos.Sched(), clock=fakeos.Clock()), timeout=200)
+            info = {"check": chk.status, "error": chk.error_class}
+            if chk.status == 0:
+                res = hrun.invoke(cli_run.main, hrun.run_ns(task_identifier="//:" + gname), str(proj.root), kern, timeout=300)
+                info["run"] = res.status
+                info["spawned"] = sorted(p.name for p in kern.tasks())
+                info["outputs"] = sorted(k for k in hrun.tree_digest(proj.out, exclude=("version_index.sqlite",)) if k.count(os.sep) <= 1)
+            out.append(info)
+        finally:
+            proj.cleanup()
+    D = shape
+    for X in out:
+        if isinstance(X["check"], str):
+            g.require(False, "group:crash:" + X["check"][4:], D)
+    g.require(out[0]["check"] == out[1]["check"], "group:accepted-iff-expansion-accepted",
+              "group form: check status %r (%s); expansion: %r (%s); %s" % (out[0]["check"], out[0]["error"], out[1]["check"], out[1]["error"], D))
+    if out[0]["check"] == 0:
+        g.require(out[0]["run"] == out[1]["run"] == 0 and out[0]["spawned"] == out[1]["spawned"] and out[0]["outputs"] == out[1]["outputs"],
+                  "group:different-executions", "run %r/%r, %d/%d spawns; %s" % (out[0]["run"], out[1]["run"], len(out[0]["spawned"]), len(out[1]["spawned"]), D))
+    g.goal("group with more than 256 instances" if shape.startswith("instances") else "long group and instance names")
+    return {"nontrivial": True, "sample": {"case": D, "check": [out[0]["check"], out[1]["check"]]}}
+
+
 def spaces(tier):
     goals = ["both forms rejected", "chained instances accepted", "shared deps accepted"]
-    sp = [Space("inst2-iterables", make(2, args_pool=ARGS[:2], opts_pool=OPTS[:1], names=("a", "b", "a"), specials=5),
+    sp = [Space("scale-many-instances-long-names", scale_fn, "groups of 257 and of 300 chained instances; group/instance names of 125+125 and "
+                "60+200 characters; group form vs documented expansion", depth=2,
+                goals=["group with more than 256 instances", "long group and instance names"]),
+          Space("inst2-iterables", make(2, args_pool=ARGS[:2], opts_pool=OPTS[:1], names=("a", "b", "a"), specials=5),
                 "0..2 instances from {a, b, a again}; experiments given as list | list with a non-instance | None | one-shot generator | tuple",
                 depth=6),
           Space("inst1-explicit-values-two-files", make(1, args_pool=ARGS, opts_pool=OPTS, names=("a",), two_files_bit=True, specials=1),
@@ -220,7 +269,7 @@ class stdlib_rewrite:
 def canaries(tier):
     cs = [Canary("combine-lists-instances-in-reverse",
                  lambda: stdlib_rewrite("deps=relative_experiment_identifiers,", "deps=list(reversed(relative_experiment_identifiers)),"),
-                 preset={"ninst": 2, "name0": 0, "name1": 1, "special": 0})]
+                 preset={"ninst": 2, "name0": 0, "name1": 1, "special": 0}, space="inst2")]
     if tier == "thorough":
         cs.append(Canary("chain-depends-on-first-instance",
                          lambda: stdlib_rewrite("prev_experiment_identifier = experiment_identifier",
